@@ -3,7 +3,7 @@
     sciparse::path::combinator::combine(src, dst, cores, non_cores).  The model is run on the
     same input; SegmentIDs (SHA-256, only their order is observable) are taken from the
     implementation's PathSegment::id(); fingerprints are compared structurally. *)
-From Sci Require Export Combine.Model Combine.Spec Combine.Obs.
+From Sci Require Export Combine.Model Combine.Spec Combine.Obs Combine.Enum.
 Local Open Scope N_scope.
 
 Record ccase := mkCase {
@@ -78,6 +78,7 @@ Definition bytes0_decodes (c : ccase) : bool :=
 (** C04 oracles, for cases the generator declares well-formed *)
 Definition c04_ok (c : ccase) : bool :=
   sorted_by_hops (c_out c) && no_dup_routes (c_out c)
+  && enum_ok (c_cores c) (c_noncores c) (c_src c) (c_dst c) (c_out c)
   && forallb (fun p => loop_free p && ifaces_truthful p
                        && (o_src p =? c_src c) && (o_dst p =? c_dst c)) (c_out c).
 
